@@ -323,5 +323,6 @@ func main() {
 	}
 	run.Set("rule", "every non-isomorphic rooted block tree with <= max_blocks blocks and branching <= 4, every permutation of delivery; transitions = block deliveries; states = distinct (shape, final best block); each delivery is followed by the stored/orphan invariant over all delivered blocks and each run by comparison with the in-order run")
 	run.Assume("blocks are valid empty blocks on the lab network (E=2, 4 federation validators); ordering effects of transactions are covered by C10/C13")
+	concurrent(run)
 	run.Finish()
 }
